@@ -10,6 +10,7 @@ from ..report import Rule, RuleCtx
 from ..paths import enumerate_paths
 from . import c13_lazy as lazy
 from . import c13_tables as tabs
+from . import c13_state as state
 
 ARGLIST = 'mesonbuild/arglist.py'
 ROOT = 'CompilerArgs'
@@ -32,16 +33,25 @@ EXPLANATION = (
     'objects derived from self (copy, +) are built with type(self), never a literal family class that has subclasses; '
     'R7 every value stored in X._container is a list created for the object (copy/display/locally built), on every path; '
     'R2 also strips hand-written memoisation of the classifiers and requires the cache key to contain the class. '
+    'R8 who-may-write on the pending queues: outside the classified writer (__iadd__ and its private helpers, read by R3) and the flush, every statement that '
+    'puts entries into X.pre / X.post (a state transfer such as a lazy copy) sets X.needs_override_check on the same path - to True or to the flag of the object the '
+    'entries come from; R1 accepts the read of an unflushed _container only as part of such a transfer of all three stores to a new object. '
+    'R9 a batch stays a batch: extend() is defined by the family (the inherited MutableSequence.extend appends element by element) and hands its argument to += whole; '
+    'no family method forwards the elements of an iterable unconditionally one by one to append / += [x] / extend([x]). '
+    'Normal form (all rules): `for x in self._gen(..)` over a private generator is read as the producer body with each `yield e` replaced by `x = e; <loop body>` '
+    'when the lock-step correspondence is exact (no break, no try/with around a yield, no send/return value). '
     'Does NOT decide the equivalence of lazy and eager meaning over operation sequences (a run-time relation), the classification of concrete argument '
     'strings (only the tables, the chain and the regex language are decided, no body is evaluated on sample arguments), the DCompilerArgs tables, nor the callers in the backends. '
     'Out of scope by design (not armed): the constructor and list + CompilerArgs take the initial list verbatim (copy() depends on it), '
-    'extend_preserving_lflags reorders within a batch, append_direct/extend_direct arguments are never re-de-duplicated.')
+    'extend_preserving_lflags reorders within a batch, append_direct/extend_direct arguments are never re-de-duplicated and are queued per element '
+    '(a per-element route selected by a test on the element is not judged by R9).')
 ASSUMPTIONS = [
     'collections.abc.MutableSequence mixin methods (pop, remove, reverse, clear, index, count, __contains__, __reversed__) are built from the abstract methods as documented',
     'list/deque/set methods (append, appendleft, extend, extendleft, add, clear, slice assignment) behave as documented',
     'objects reaching a parameter annotated or tested as CompilerArgs may hold pending pre/post entries (any caller may have used +=)',
 ]
-TECHNIQUE = ('typestate (clean/dirty per receiver) as a may-dataflow over the CFG with method summaries by fixpoint; path enumeration; decision tables over canonical atoms '
+TECHNIQUE = ('typestate (clean/dirty per receiver) as a may-dataflow over the CFG with method summaries by fixpoint; who-may-write on the queues with path enumeration; '
+             'MRO lookup against the documented abc mixins; path enumeration; decision tables over canonical atoms '
              'compared on every world; set comparison of folded constant tables; regex-language facts (membership, empty intersection)')
 
 STORES = (lazy.STORE,) + lazy.QUEUES
@@ -251,9 +261,83 @@ def _caller_context(fam: lazy.Family, mod: Module, fn: T.Any, qn: str, cls_key: 
     return (worst[0][0], f'{len(sites)} call site(s): ' + ', '.join(sorted({w for _, w in sites})) + (f'; {worst[0][1]}' if worst[0][0] != lazy.CLEAN else ''))
 
 
+def _state_clone(fam: lazy.Family, mod: Module, fn: T.Any, acc: lazy.Access) -> T.Optional[T.Tuple[str, str]]:
+    """A read of the unflushed self._container that is one third of a *state transfer*: `N = <family constructor>(..., copy of
+    self._container)` followed, on every path to the return of N, by `N.pre = <copy of self.pre>` and `N.post = <copy of
+    self.post>` - the new object is as unflushed as self, nothing is lost (whether the override flag travels with the
+    queues is R8's clause).  ('ok'|'undecided', text), or None when this is not such a transfer (the finding stands)."""
+    if acc.key != 'self' or not isinstance(acc.node.ctx, ast.Load):
+        return None
+    site: T.Optional[ast.stmt] = None
+    for n in walk_no_nested(fn, include_root=False):
+        if isinstance(n, (ast.Assign, ast.AnnAssign)) and getattr(n, 'value', None) is not None and isinstance(n.value, ast.Call):
+            tg = n.targets[0] if isinstance(n, ast.Assign) and len(n.targets) == 1 else getattr(n, 'target', None)
+            call = n.value
+            is_ctor = norm(call.func) in ('type(self)', 'self.__class__') or fam.resolve_member(mod, attr_chain(call.func) or '?') is not None
+            if isinstance(tg, ast.Name) and is_ctor and any(x is acc.node for a in list(call.args) + [k.value for k in call.keywords] for x in ast.walk(a)):
+                site = n
+    if site is None:
+        return None
+    new = (site.targets[0] if isinstance(site, ast.Assign) else site.target).id  # type: ignore[attr-defined,union-attr]
+    paths = [p for p in enumerate_paths(fn.body, unroll=1) if any(ev.kind == 'stmt' and ev.node is site for ev in p.events)]
+    if not paths:
+        return None
+    odd = ''
+    for p in paths:
+        moved: T.Set[str] = set()
+        after = False
+        for ev in p.events:
+            e = ev.node
+            if ev.kind == 'stmt' and e is site:
+                after = True
+                continue
+            if not after or ev.kind == 'cond' or e is None:
+                continue
+            if ev.kind != 'stmt':
+                odd = odd or short(e, 50)
+                continue
+            if isinstance(e, ast.Return):
+                if p.outcome != 'return' or attr_chain(e.value) != new:
+                    odd = odd or short(e, 50)
+                continue
+            pairs: T.List[T.Tuple[ast.AST, ast.AST]] = []
+            if isinstance(e, ast.Assign) and len(e.targets) == 1:
+                t0 = e.targets[0]
+                pairs = list(zip(t0.elts, e.value.elts)) if isinstance(t0, ast.Tuple) and isinstance(e.value, ast.Tuple) and len(t0.elts) == len(e.value.elts) else [(t0, e.value)]
+            elif isinstance(e, ast.AnnAssign) and e.value is not None:
+                pairs = [(e.target, e.value)]
+            if not pairs:
+                odd = odd or short(e, 50)
+            for t, v in pairs:
+                if isinstance(t, ast.Attribute) and attr_chain(t.value) == new and t.attr in lazy.QUEUES:
+                    src = lazy._queue_copy_of(v)
+                    if src is not None and attr_chain(src.value) == 'self' and src.attr == t.attr and not (isinstance(v, ast.Call) and attr_chain(v.func) in ('reversed', 'iter')):
+                        moved.add(t.attr)
+                    else:
+                        odd = odd or short(e, 50)
+                elif isinstance(t, ast.Attribute) and attr_chain(t.value) == new and t.attr == state.FLAG:
+                    continue
+                else:
+                    odd = odd or short(e, 50)
+        if p.outcome != 'return':
+            odd = odd or 'a path that does not return the new object'
+        if moved != set(lazy.QUEUES):
+            return None         # a queue is left behind: the read misses its entries
+    if odd:
+        return ('undecided', f'state transfer to `{new}` (both queues copied) mixed with `{odd}`')
+    return ('ok', f'state transfer: _container, pre and post of self are all copied into the new object on {len(paths)} path(s)')
+
+
 def _builtin_example(ctx: RuleCtx, fam2: lazy.Family) -> None:
     mod = Module(ctx.repo, EXAMPLE_REL, EXAMPLE)   # parsed in memory, never written
     for name, want in EXAMPLE_WANT.items():
+        if name == 'peek_copy':
+            # what a copy of a possibly unflushed list is, is the repository's business (summary of copy()); the example
+            # only shows that the summary reaches the access
+            sm = fam2.summary(fam2.cls_key(*fam2.root), 'copy')
+            if sm is None:
+                continue
+            want = [sm.ret[1][0]]
         an = lazy.Analysis(fam2, mod, mod.func(name), name, None).run()
         got = [a.status[0] for a in an.accesses]
         if got != want:
@@ -271,7 +355,11 @@ def r1(ctx: RuleCtx) -> None:
     cleaning = sorted(m for (ck, m), s in fam.summaries.items() if ck == root_key and s.exit_self[1][0] == lazy.CLEAN)
     ctx.note(f'summaries ({ROOT}): leave entries pending: {dirtying}; end flushed: {cleaning}')
     for need in ('__iadd__', 'append', 'extend'):
-        if need not in dirtying:
+        # (an operation the family does not define is read through the documented MutableSequence mixin: fam.summary)
+        if need != '__iadd__' and fam.find(root_key, need) is None:
+            continue        # inherited from MutableSequence: R9 reports it; the typestate reads the documented mixin
+        sm = fam.summary(root_key, need)
+        if sm is None or sm.exit_self[0][0] != lazy.DIRTY:
             raise Undecided(f'{ROOT}.{need} is not recognised as queueing into pre/post (summaries: {dirtying})')
     inherited = {n: r for n, r in fam.roles.items() if n not in ('__init__', lazy.FLUSH) + lazy.DESIGN_READERS}
     if inherited:
@@ -313,6 +401,13 @@ def r1(ctx: RuleCtx) -> None:
             elif cls_key is not None and a.key == 'self' and an.role == 'design' and isinstance(a.node.ctx, ast.Load):
                 design.append(a)
             else:
+                sc = _state_clone(fam, mod, fn, a) if cls_key is not None else None
+                if sc is not None and sc[0] == 'ok':
+                    ctx.ok(f'{what}: {sc[1]}')
+                    continue
+                if sc is not None:
+                    undecided.append(f'{what}: {sc[1]}')
+                    continue
                 cc = _caller_context(fam, mod, fn, qn, cls_key, a)
                 if cc is not None and cc[0] == lazy.CLEAN:
                     ctx.ok(f'{what}: private helper, every caller hands over a flushed list ({cc[1]})')
@@ -670,4 +765,6 @@ RULES = [
     Rule('C13.R5', 'copy isolation: a method working on self-or-copy never changes self by name', r5),
     Rule('C13.R6', '+ and reflected + are defined through += on a fresh object of the same flavour', r6),
     Rule('C13.R7', 'the flushed list is owned: _container is never the caller\'s list', r7),
+    Rule('C13.R8', 'pending state is one unit: entries put into pre/post outside the classified writer come with the override flag', state.r8),
+    Rule('C13.R9', 'a batch stays a batch: extend is the family\'s own and nothing forwards a batch element by element', state.r9),
 ]
